@@ -327,6 +327,7 @@ class _Selector:
             if not loop._woken and not loop._stopping and others_done():
                 if loop._ready and loop._on_idle is not None:
                     loop._on_idle()          # asleep with handles nobody announced, and nobody left to do it
+                loop._quiesced = True
                 loop.stop()
         else:
             ds.block(lambda: loop._woken or loop._stopping, ds.clock + timeout, what="select")
@@ -347,6 +348,7 @@ class VLoop(_be.BaseEventLoop):
         self._selector = _Selector(self)
         self._on_idle: Optional[Callable[[], None]] = None
         self._woken = False
+        self._quiesced = False
         self.set_debug(False)
         self.errors: List[Any] = []
         self.set_exception_handler(lambda loop, ctx: self.errors.append(ctx))
@@ -390,7 +392,7 @@ DESIGN_INVS = ["TypeOK", "D_OnLoopThread", "D_NotEarly", "D_NoStart", "D_NoLost"
                "D_CallerInsideAnotherLoop"]
 TRACE_CONSTS = dict(Items={1, 2, 3}, Foreign={"F", "G"})
 UNIT = 1000          # trace times are in 1/1000 of a scenario tick (the monitor is unit-agnostic)
-VARIANTS_ALL = ("own", "caller", "early", "lose", "nowake", "inline", "impatient")
+VARIANTS_ALL = ("own", "caller", "early", "lose", "nowake", "inline", "impatient", "spent")
 
 
 def make_run_one(sc: Dict[str, Any], form: str = "rel", wide: bool = False):
@@ -406,7 +408,7 @@ def make_run_one(sc: Dict[str, Any], form: str = "rel", wide: bool = False):
             ds.vloop = loop
             scheds = {"aio": AsyncIOScheduler(loop), "ts": AsyncIOThreadSafeScheduler(loop)}
             disp: Dict[int, Any] = {}
-            state = {"go": False}
+            state = {"go": False, "runs": 0, "fin": False}
 
             def log(e, **kw):
                 t = ds.me()
@@ -424,7 +426,9 @@ def make_run_one(sc: Dict[str, Any], form: str = "rel", wide: bool = False):
                 if o == "go":
                     state["go"] = True
                 elif o == "up":
-                    ds.block(lambda: loop.is_running() or state.get("stopped"), what="up")
+                    ds.block(lambda: loop.is_running() or state.get("fin"), what="up")
+                elif o == "down":        # the loop has run and is stopped (it will be run again when F says go)
+                    ds.block(lambda: state["runs"] >= 1 and not loop.is_running(), what="down")
                 elif o == "sleep":
                     if w > 0:
                         shims.sleep(float(w))
@@ -472,17 +476,26 @@ def make_run_one(sc: Dict[str, Any], form: str = "rel", wide: bool = False):
                 loop.call_soon(drv)
             loop._on_idle = lambda: log("id")
 
+            if sc.get("pause"):
+                loop.call_at(float(sc["pause"]), loop.stop)      # a loop callback stops the loop; F runs it again later
+
             def lmain():
-                ds.block(lambda: state["go"], what="go")
-                log("ls")
-                loop.run_forever()
-                state["stopped"] = True
-                log("lx")
+                while True:
+                    ds.block(lambda: state["go"], what="go")
+                    state["go"] = False
+                    log("ls")
+                    loop.run_forever()
+                    if loop._quiesced:
+                        state["fin"] = True
+                    log("lx")
+                    state["runs"] += 1
+                    if loop._quiesced:
+                        return
 
             def fmain(name):
                 def script():
                     if name != "F":
-                        ds.block(lambda: loop.is_running() or state.get("stopped"), what="up")   # the others start once the loop runs
+                        ds.block(lambda: loop.is_running() or state.get("fin"), what="up")   # the others start once the loop runs
                     for op in sc["f"][name]:
                         do(op)
 
